@@ -307,6 +307,33 @@ def run(ctx):
         reqs.append((f"timing get {fam} IRREGULAR - - - {render(stamps)} {i} {n}", got))
         ctx.case(("irr", tuple(stamps), i, n))
         ctx.count("irregular_window", "beyond" if i + n > len(stamps) else "fits")
+    # the timestamps in every kind of Sequence the API accepts (list, tuple, the library's own DateTimeArray, a user Sequence class), with
+    # sub-second spacings of every size: several timestamps inside one whole second, fractions more than half a second apart, equal ones
+    import nitypes.bintime as _bt
+    from collections.abc import Sequence as _Seq
+
+    class _MySeq(_Seq):
+        def __init__(self, xs): self._xs = list(xs)
+        def __getitem__(self, i): return self._xs[i]
+        def __len__(self): return len(self._xs)
+    T64_ = 1 << 64
+    fracsets = [[1 / 8, 3 / 4, 7 / 8], [1 / 8, 3 / 4, 11 / 16], [-1.5, -0.75, -0.125, 0.5], [0.9, 0.2], [0.2, 0.9], [0.1, 0.1, 0.7], [0.7, 0.1, 0.1], [0.05, 0.55, 0.56, 1.04], [2.9, 2.3, 2.25, 1.7],
+                [0.0, 0.5, 1.0], [0.49, 0.99, 1.49], [0.99, 0.49], [0.3, 0.8, 0.3]]
+    for fr in fracsets:
+        ticks_ = [3_831_211_530 * T64_ + int(f * T64_) for f in fr]
+        inc = all(x <= y for x, y in zip(ticks_, ticks_[1:])); dec = all(x >= y for x, y in zip(ticks_, ticks_[1:]))
+        stamps_ = [_bt.DateTime.from_ticks(t) for t in ticks_]
+        for cname, cont in (("list", list(stamps_)), ("tuple", tuple(stamps_)), ("DateTimeArray", _bt.DateTimeArray(stamps_)), ("Sequence subclass", _MySeq(stamps_))):
+            o = outcome(Timing.create_with_irregular_interval, cont)
+            ctx.case(("irregular-container", cname, str(fr)))
+            ctx.count("irregular container", cname)
+            if (inc or dec) != (o[0] == "ok") or (o[0] == "err" and o[1] != "ValueError"):
+                ctx.violation(what="irregular timestamps in a Sequence: accepted iff monotonic", container=cname, fractions_of_a_second=str(fr), observed=show(o)[:120],
+                              required="accepted" if (inc or dec) else "ValueError")
+            elif o[0] == "ok":
+                g = outcome(lambda: [x.ticks for x in o[1].get_timestamps(0, len(ticks_))])
+                if g != ("ok", ticks_):
+                    ctx.violation(what="irregular timestamps in a Sequence: returned as given", container=cname, observed=show(g)[:160], required=str(ticks_)[:160])
     # monotonicity scan and irregular construction
     seqs = [[], [1], [1, 1], [1, 2, 3], [3, 2, 1], [1, 1, 2, 2], [2, 2, 1, 1], [1, 2, 1], [2, 1, 2], [1, 1, 2, 1],
             [5, 5, 5, 5, 4, 5], [1, 2, 3, 4, 5, 4], [5, 4, 3, 2, 1, 2], [0, 0, 0]]
